@@ -179,11 +179,11 @@ def Op.frame (v : VM) : Op → Option (FrameRec × Bool)
   | .ret => none
   | .unwind _ => none
   | .contractCall target fs safe init =>
-    v.flags.map fun cf => (⟨resolveHash 0 target, v.currentHash, cf &&& safeMask safe fs⟩, init)
+    v.flags.map fun cf => (⟨resolveHash 0 target, v.currentHash, cf &&& safeMask safe (fs % 256)⟩, init)
   | .callT target fs safe init =>
     v.flags.map fun cf => (⟨resolveHash 0 target, v.currentHash, cf &&& safeMask safe fs⟩, init)
   | .runtimeLoadScript h fs =>
-    v.flags.map fun cf => (⟨resolveHash h 0, v.currentHash, cf &&& fReadOnly &&& fs⟩, false)
+    v.flags.map fun cf => (⟨resolveHash h 0, v.currentHash, cf &&& fReadOnly &&& (fs % 256)⟩, false)
   | .nativeCall caller target init =>
     v.flags.map fun cf => (⟨resolveHash 0 target, caller, cf &&& fAll⟩, init)
   | .verifyScript hash => some (⟨resolveHash 0 hash, v.currentHash, fReadOnly⟩, false)
@@ -272,7 +272,7 @@ theorem step_shape {v v' : VM} (op : Op) (h : v.step op = .ok v') :
         · cases h
         · obtain ⟨cf', hcf', hs⟩ := callEx_shape h
           rw [hcf] at hcf'; cases hcf'
-          exact ⟨⟨resolveHash 0 target, v.currentHash, cf &&& safeMask safe fs⟩, init, by simp [Op.frame, hcf], hs⟩
+          exact ⟨⟨resolveHash 0 target, v.currentHash, cf &&& safeMask safe (fs % 256)⟩, init, by simp [Op.frame, hcf], hs⟩
   | callT target fs safe init =>
     left
     simp only [VM.step] at h
@@ -294,7 +294,7 @@ theorem step_shape {v v' : VM} (op : Op) (h : v.step op = .ok v') :
       · cases h
       · split at h
         · cases h
-        · exact ⟨⟨resolveHash h160 0, v.currentHash, cf &&& fReadOnly &&& fs⟩, false, by simp [Op.frame, hcf], load_shape h⟩
+        · exact ⟨⟨resolveHash h160 0, v.currentHash, cf &&& fReadOnly &&& (fs % 256)⟩, false, by simp [Op.frame, hcf], load_shape h⟩
   | nativeCall caller target init =>
     left
     obtain ⟨cf, hcf, hs⟩ := callEx_shape (v := v) (show v.callEx caller target fAll init = .ok v' from h)
